@@ -785,7 +785,7 @@ def rule_box(rep, d):
                             if tx and tx[0] == "bin" and tx[1] == "=" and tx[3][0] == "call" and ir.show(tx[3][1]).endswith("logb") and len(tx[3]) == 3:
                                 m = tx[3][2]
                                 names = set()
-                                good = m[0] == "call" and ir.show(m[1]).endswith(("fmax", "max")) and len(m) == 4
+                                good = m[0] == "call" and ir.show(m[1]).split("::")[-1] == "fmax" and len(m) == 4
                                 if good:
                                     for a_ in m[2:]:
                                         if a_[0] == "call" and ir.show(a_[1]).endswith(("fabs", "abs")) and a_[2][0] == "ref":
@@ -804,7 +804,7 @@ def rule_box(rep, d):
                     ok = False
                     if t[0] == "call" and ir.show(t[1]).endswith("logb") and len(t) == 3:
                         m = t[2]
-                        if m[0] == "call" and ir.show(m[1]).endswith(("fmax", "max")) and len(m) == 4:
+                        if m[0] == "call" and ir.show(m[1]).split("::")[-1] == "fmax" and len(m) == 4:
                             args = m[2:]
                             names = set()
                             good = True
@@ -814,8 +814,11 @@ def rule_box(rep, d):
                                 else:
                                     good = False
                             ok = good and names == cd
+                    nanmax = (not ok) and t[0] == "call" and len(t) == 3 and t[2][0] == "call" and ir.show(t[2][1]).split("::")[-1] in ("max", "min")
                     (rep.holds if ok else rep.violates)("C10.box", label, "divisor scale", where=d.where(v),
-                                                        detail=ir.show(t) if ok else "the scale must be logb(fmax(fabs(c), fabs(d))) of the two divisor parts; found `%s`" % ir.show(t))
+                                                        detail=ir.show(t) if ok else ("the scale must be logb(fmax(fabs(c), fabs(d))) of the two divisor parts; found `%s`%s" % (
+                                                            ir.show(t), " - std::max returns its first argument when that is NaN, fmax ignores a NaN: (1,1)/(NaN,inf) then misses the "
+                                                                        "'finite / infinite = 0' recovery" if nanmax else "")))
             exps = []
             for c in ir.walk_expr(ir.body(fn)):
                 if c.get("kind") == "CallExpr":
